@@ -669,6 +669,22 @@ impl Allocator {
     keys
   }
 
+  /// (address, size the allocator accounts for it) of every block it owns
+  pub fn verif_blocks(&self) -> Vec<(usize, usize)> {
+    self
+      .heap
+      .iter()
+      .map(|h| (h.loc() as usize, h.size()))
+      .chain(
+        self
+          .obj_heap
+          .iter()
+          .chain(self.nursery_obj_heap.iter())
+          .map(|h| (h.verif_ptr() as usize, h.size())),
+      )
+      .collect()
+  }
+
   pub fn verif_set_next_gc(&mut self, next_gc: usize) {
     self.next_gc = next_gc;
   }
